@@ -4,7 +4,9 @@ import AslModel.Spec.HexImage
 import AslModel.Spec.HexFamilies
 /-! Driver mode `c06`: one p2hex run per request line.
 
-request : `<codefile hex> <real output text hex|-> key=value*`
+request : `<sources> <real output text hex|-> key=value*`
+  sources = `<codefile hex>[@<offset>]` joined by `,` in command line order; offset = signed decimal value of the `(offset)`
+  suffix of the source argument (absent = 0)
   keys: fmt (default|moto|intel|intel16|intel32|mos|tek|atmel|c), start, stop (number|auto), reloc, rel, ll, entry (number|-),
         imode, mm, minmoto, rec5, sep, avrlen, seg, cformat, cname, q (3 characters 0/1: mosCarry mosConst4 tekByteSums), cpufmt (expected format name when fmt=default, for the spec side)
 answer  : `model=<eq|ne|err-…> decode=<ok|bad> why=<-|line:i|struct> cells=<eq|ne> entry=<ok|bad> mdecode=<ok|bad> mcells=<eq|ne> nlines=… ngroups=… ncells=… ov=… [diffline=i modelline=… realline=…]`
@@ -154,24 +156,36 @@ def diffLine : List Hex.Line → List Hex.Line → Nat → String
 def splitRaw (t : List Char) : List Hex.Line :=
   ((String.ofList t).splitOn "\n").map String.toList
 
+/-- one source argument `<hex>[@<offset>]` → (items, offset) -/
+def srcOf (w : String) : Option (List PFile.Item × Int) :=
+  let (fh, off) := match w.splitOn "@" with
+    | [f, o] => (f, o.toInt?)
+    | [f] => (f, some 0)
+    | _ => ("", none)
+  match unhex fh, off with
+  | some file, some k =>
+    match PFile.parseFile file with
+    | some (items, _) => some (items, k)
+    | none => none
+  | _, _ => none
+
 def handle (line : String) : String :=
   match words line with
   | fh :: oh :: rest =>
     let kv := kvs rest
-    match unhex fh, unhex oh, optsOf kv with
-    | some file, some outb, some o =>
-      match PFile.parseFile file with
-      | none => "bad-codefile"
-      | some (items, _) =>
+    match (fh.splitOn ",").mapM srcOf, unhex oh, optsOf kv with
+    | some files, some outb, some o =>
         let real : List Char := outb.map (fun x => Char.ofNat x.toNat)
-        let recs := PFile.dataRecs items
-        match p2hex o items with
+        -- MODEL: the offset as the LongWord it is stored in; SPEC: the signed value
+        let srcs : List Src := files.map fun (items, k) => ⟨items, (k % 4294967296).toNat⟩
+        match p2hexFiles o srcs with
         | .error e => s!"model=err-{repr e}"
         | .ok out =>
           let mtext := unlines out.lines
           let meq := mtext == real
-          let expected := HexImage.expectedCells o.forceSeg (if o.startAuto then none else some o.startAdr)
-              (if o.stopAuto then none else some o.stopAdr) o.relAdr o.relocate o.multiMode recs
+          let expected := HexImage.expectedCellsFiles o.forceSeg (if o.startAuto then none else some o.startAdr)
+              (if o.stopAuto then none else some o.stopAdr) o.relAdr o.relocate o.multiMode
+              (files.map fun (items, k) => (k, PFile.dataRecs items))
           match allSameFmt out.groups with
           | none => s!"model={if meq then "eq" else "ne"} decode=skip why=mixed-or-empty cells=skip entry=skip mdecode=skip mcells=skip nlines={out.lines.length} ngroups={out.groups.length} ncells=0 ov={out.overflow}" ++ (if meq then "" else diffLine out.lines (splitRaw real) 0)
           | some f =>
